@@ -227,3 +227,51 @@ print(json.dumps({"max_abs_diff_reported_vs_computed": float(np.abs(o._dynamical
     r = json.loads(out.strip().splitlines()[-1])
     return {"reproduced": r["max_abs_diff_reported_vs_computed"] > 1e-9, "input": {"use_openmp": True, "with_eigenvectors": True, "with_dynamical_matrices": True},
             "real_code": r, "expected": "reported dynamical matrices == computed dynamical matrices"}
+
+
+BF = "phonopy/phonon/band_structure.py"
+
+
+def band_connection_pairing(run):
+    """BandStructure._solve_dm_on_path with band connection: eigenvalues, eigenvectors (columns!) and group velocities of a
+    q-point are re-ordered by the same band order, so that reported eigenvector j still belongs to reported frequency j."""
+    mod = pyexec.load(BF)
+    m = mod.method("BandStructure", "_solve_dm_on_path")
+    pref = BF + ":BandStructure._solve_dm_on_path"
+    order = Opaque("band order")
+    ev0, ec0 = ("base", "eigvals"), ("base", "eigvecs")
+    hooks = {"numpy.linalg.eigh": lambda ex, st, args, kwargs: (Opaque("eigvals", idx=ev0), Opaque("eigvecs", idx=ec0)),
+             "numpy.linalg.eigvalsh": lambda ex, st, args, kwargs: Opaque("eigvals", idx=ev0),
+             "estimate_band_connection": lambda ex, st, args, kwargs: order,
+             "BandStructure._shift_point": lambda ex, st, args, kwargs: None}
+    ex = PyExec(mod, run.sink, pref, hooks=hooks, opaque_unknown=True, split=True)
+    # band_order = range(len(eigvals)) at the first point: identity order; model it by the same abstract order object
+    ex.hooks["range-of-len"] = None
+    st = PState()
+    gvobj = st.new(Record("GroupVelocity", {"group_velocities": Opaque("gv", idx=("base", "gv")), "run": None}))
+    self_ref = st.new(Record("BandStructure", {"_group_velocity": None, "_dynamical_matrix": Opaque("dynamical matrix object"),
+                                               "_with_eigenvectors": True, "_is_band_connection": True, "_distance": z3.Real("distance")}))
+    n0 = len(run.sink.obls)
+    outs = ex.call_function(st, m, [Opaque("path")], self_ref=self_ref, cls="BandStructure")
+    checked = 0
+    for (s2, fl, v) in outs:
+        if fl != "return" or not isinstance(v, tuple):
+            continue
+        evs, ecs = s2.heap[v[1].id].items, s2.heap[v[2].id].items
+        if not evs or not ecs:
+            continue
+        e, c = evs[-1], ecs[-1]
+        ei, ci = getattr(e, "idx", None), getattr(c, "idx", None)
+        if not (isinstance(ei, tuple) and ei[0] == "take"):
+            continue      # first q-point of the path: band_order = range(n), the identity (no re-ordering)
+        checked += 1
+        oid = ei[2]
+        run.sink.add(pref, "pairing", list(s2.pc), z3.BoolVal(ei == ("take", ev0, oid)),
+                     meta={"label": "eigenvalues re-ordered by the band order"})
+        run.sink.add(pref, "pairing", list(s2.pc), z3.BoolVal(ci == ("T", ("take", ("T", ec0), oid))),
+                     meta={"label": "eigenvector COLUMNS re-ordered by the same band order as the eigenvalues"})
+    if not checked:
+        raise CheckerError("_solve_dm_on_path: no band-connection path explored")
+    run.functions.append({"file": BF, "function": "BandStructure._solve_dm_on_path", "line": m.lineno, "sha1": mod.sha(m),
+                          "obligations": len(run.sink.obls) - n0})
+    run.abstracted += sorted(set(ex.abstracted))[:15]
